@@ -1,2 +1,50 @@
 # Named matchers for known findings (see /verif/known_findings.json).
 # Each takes a core.Violation and says whether it is that listed finding.
+
+from hplverif import core, mast
+
+
+def _aliases_of(ev):
+    return [e[2] for e in mast.simple_events(ev) if e[2] is not None]
+
+
+def _refs_of(ev):
+    out = set()
+    for e in mast.simple_events(ev):
+        if e[3] is not None:
+            out |= mast.free_vars(e[3]) - ({e[2]} if e[2] else set())
+    return out
+
+
+def partial_alias_shape(prop):
+    """Is prop a property in which a split position is a disjunction where some but not all
+    alternatives bind an alias that another event references? (finding F13)"""
+    _, _meta, sc, pt = prop
+    split = [sc[2]] if sc[1] in ('after', 'after_until') else []
+    kind = pt[1]
+    if kind in ('absence', 'requirement', 'prevention'):
+        split.append(pt[3])
+    elif kind == 'response':
+        split.append(pt[2])
+    others = [e for _role, e in mast.event_positions(prop)]
+    for pos in split:
+        if pos is None or pos[0] != 'disj':
+            continue
+        alts = mast.simple_events(pos)
+        bound = [a[2] for a in alts if a[2] is not None]
+        for x in set(bound):
+            if sum(1 for a in alts if a[2] == x) < len(alts):
+                for o in others:
+                    if o is not pos and x in _refs_of(o):
+                        return True
+    return False
+
+
+def f13_partial_alias(v):
+    if 'canonical_form' not in v.sig or 'HplSanityError' not in v.sig:
+        return False
+    inp = v.input
+    m = inp.get('m') if isinstance(inp, dict) else None
+    if m is None:
+        return False
+    return partial_alias_shape(core.detuple(m))
